@@ -52,6 +52,8 @@ def _mk(kind, bs):
         return K.RQKernel(batch_shape=bsz)
     if kind == "linear":
         return K.LinearKernel(batch_shape=bsz)
+    if kind == "constant":
+        return K.ConstantKernel(batch_shape=bsz)
     if kind == "rbf_grad":
         return K.RBFKernelGrad(ard_num_dims=2, batch_shape=bsz)
     if kind == "rbf_gradgrad":
@@ -365,6 +367,7 @@ def scenarios(tier, seed):
             add("kernel", kind=["rbf", "scale_rbf", "rq", "linear"][i % 4], pbs=list(p), dbs1=list(d), dbs2=list(d if i % 2 else (d[-1:] if d else ())))
         for kind in ("multitask", "periodic"):
             add("kernel", kind=kind, pbs=[2], dbs1=[2], dbs2=[2])
+        add("kernel", kind="constant", pbs=[2], dbs1=[], dbs2=[2])
         add("kernel", kind="rbf_grad", pbs=[2], dbs1=[], dbs2=[])
         add("kernel", kind="matern52_grad", pbs=[], dbs1=[2], dbs2=[])
         add("kernel", kind="poly_grad", pbs=[2], dbs1=[2, 1], dbs2=[2, 1])
@@ -391,7 +394,7 @@ def scenarios(tier, seed):
         for kind in ("rbf", "rq", "linear", "rbf+linear", "rbf*linear", "scale(rbf+rq)", "scale_rbf"):
             for B in (2, 3):
                 add("kernel_index", kind=kind, B=B, diag=True)
-        for kind in ("multitask", "periodic", "matern15", "poly3", "cosine", "rbf_grad", "matern52_grad", "poly_grad", "rbf_gradgrad"):
+        for kind in ("multitask", "periodic", "matern15", "poly3", "cosine", "constant", "rbf_grad", "matern52_grad", "poly_grad", "rbf_gradgrad"):
             for (p, d) in [((2,), (2,)), ((2,), ()), ((), (2,)), ((2,), (3, 2)), ((2, 1), (1, 2))]:
                 add("kernel", kind=kind, pbs=list(p), dbs1=list(d), dbs2=list(d))
         for (p, d) in [((2,), (2,)), ((3,), ()), ((), (2,)), ((2,), (3, 2))]:
